@@ -2,10 +2,18 @@
 """prints the prompt for a fresh seeding sub-agent: only the property text and its scratch worktree."""
 import json,sys
 pid=sys.argv[1]
+rnd=sys.argv[2] if len(sys.argv)>2 else ""   # e.g. "2": worktree /tmp/seed2_<id>, earlier seeds listed as "already tried"
+import glob,os
+avoid=[]
+if rnd:
+    for d in sorted(glob.glob('/verif/seeded/%s*/meta.json'%pid)):
+        try: avoid.append(json.load(open(d)).get('summary',''))
+        except Exception: pass
+wt="/tmp/seed%s_%s"%(rnd,pid)
 for l in open('/verif/properties.jsonl'):
     p=json.loads(l)
     if p['id']==pid: break
-print(f"""You are a software engineer given a scratch git worktree of the Go project slackhq/nebula (an overlay VPN) at /tmp/seed_{pid}. Work ONLY inside /tmp/seed_{pid}. Never read, list or modify /repo or /verif (or anything else outside your worktree and Go's caches). Shell setup for every command: `cd /tmp/seed_{pid} && export GOFLAGS=-mod=mod GOPROXY=off` (no network; do not set GOTOOLCHAIN or GOSUMDB).
+print(f"""You are a software engineer given a scratch git worktree of the Go project slackhq/nebula (an overlay VPN) at {wt}. Work ONLY inside {wt}. Never read, list or modify /repo or /verif (or anything else outside your worktree and Go's caches). Shell setup for every command: `cd {wt} && export GOFLAGS=-mod=mod GOPROXY=off` (no network; do not set GOTOOLCHAIN or GOSUMDB).
 
 The project is supposed to satisfy this property:
 
@@ -14,11 +22,12 @@ STATEMENT: {p['statement']}
 QUANTIFIED OVER: {p['quantifier']['text']}
 
 Your task: make a realistic change to the non-test source code (the kind of regression a maintainer could plausibly introduce in a refactor or "optimisation") that BREAKS this property, while the project still compiles and its existing test suite still passes. The breakage must need something specific to manifest — a particular interleaving, a fault or crash at a particular point, a multi-step sequence of operations, an unusual input, or two cooperating code sites that each look fine alone — NOT something ordinary use or the existing tests would expose at once. Prefer a small, subtle, plausible edit (1-15 lines). Do not edit existing tests.
+{("Colleagues already tried the following changes; choose a DIFFERENT code site and a different mechanism (ideally a different clause of the statement or a different part of the quantified space):" + chr(10) + chr(10).join("- "+a[:700] for a in avoid) + chr(10)) if avoid else ""}Keep every scratch file inside your worktree (e.g. {wt}/.scratch/), never directly under /tmp.
 
 Required steps and deliverables:
 1. Read the relevant code, choose the change, apply it in the worktree (do not commit).
 2. Run `go build ./... && go vet ./... >/dev/null 2>&1; go test -vet=off -count=1 ./...` for the packages that could be affected AND the root package `.` (the full suite takes minutes; `cmd/nebula-cert` is slow and may be skipped unless you touched cert/). All must pass with your change. Say exactly what you ran.
 3. Write a demonstration: a NEW Go test file (in-package, any name like zz_seed_demo_test.go) or small program that FAILS with your change and PASSES without it (verify both: use `git stash` / `git diff > patch; git checkout` to flip). The demo may use internal APIs; it should exercise the specific circumstance that makes the breakage manifest.
-4. Create directory /tmp/seed_{pid}/SEED containing: patch.diff (`git diff` of the source change only, NOT including the demo), the demo file (copy), and meta.json with keys: property ("{pid}"), summary (what was changed), needs (what specific circumstance is needed to manifest), files_changed, commands_run (what you ran and the results), demo_cmd (exact command to run the demo from the worktree root).
+4. Create directory {wt}/SEED containing: patch.diff (`git diff` of the source change only, NOT including the demo), the demo file (copy), and meta.json with keys: property ("{pid}"), summary (what was changed), needs (what specific circumstance is needed to manifest), files_changed, commands_run (what you ran and the results), demo_cmd (exact command to run the demo from the worktree root).
 5. Leave the worktree with your source change applied and the demo file in place.
 Final message: a short report (change, why the existing tests pass, how the demo shows the breakage).""")
